@@ -2,4 +2,6 @@ SPECIFICATION Spec
 INVARIANT FormsAgree
 INVARIANT Increasing
 INVARIANT Physical
+INVARIANT PermOk
+INVARIANT RYAttractive
 CHECK_DEADLOCK FALSE
